@@ -301,11 +301,9 @@ func decodeContext(c interface{}) ([]string, []interface{}, error) {
 }
 
 func safeStringValue(v interface{}) string {
-	if v == nil {
-		return ""
-	}
+	s, _ := v.(string) //nolint:errcheck // any other JSON type counts as no value
 
-	return v.(string)
+	return s
 }
 
 func proofsToRaw(proofs []Proof) ([]byte, error) {
